@@ -291,6 +291,12 @@ def okFinal (o : Obs) : Ev → Bool
   | .status st => if 0 < o.requesting then true else if o.engaged then true else decide (st = o.idle)
   | _ => true
 
+/-- the busy predicate of the module itself (`Drivable.isBusy`), as a table `code ↦ answer` recorded from the
+    implementation: *busy* means `BUSY ≤ code < ERROR` (the codes `3xx` of the protocol, sub-states included).  The codes at
+    which the recorded predicate differs. -/
+def busyPredicateBad (r : Rules) (table : List (Nat × Bool)) : List Nat :=
+  (table.filter fun p => p.2 != (decide (r.busy ≤ p.1) && decide (p.1 < r.error))).map (·.1)
+
 /-! ## the clauses as properties of a history -/
 
 def CycleBounded (idle : Status) (maxloops : Nat) := Always idle (okBound maxloops)
